@@ -72,8 +72,9 @@ theorem sCB (c : Config) : af (rCB c) ↔ DCB c := by
 
 theorem sMetrics (c : Config) : af (rMetrics c) ↔ DMetrics c := by
   simp only [rMetrics, af_cons, af_nil, and_true, DMetrics, portBad, Bool.and_eq_false_iff, Bool.or_eq_false_iff,
-    decide_eq_false_iff_not, beq_eq_false_iff_ne, ne_eq]
-  by_cases hp : c.metPath = "" <;> cases c.metOn <;> simp [hp] <;> omega
+    decide_eq_false_iff_not, beq_eq_false_iff_ne, ne_eq, Bool.not_eq_false']
+  by_cases hp : c.metPath = "" <;> by_cases hh : c.metPath = "/health" <;> cases hs : startsSlash c.metPath <;>
+    cases c.metOn <;> simp [hp, hh] <;> omega
 
 theorem sAdmin (c : Config) : af (rAdmin c) ↔ DAdmin c := by
   simp only [rAdmin, af_cons, af_nil, and_true, DAdmin, portBad, Bool.and_eq_false_iff, Bool.or_eq_false_iff,
